@@ -289,12 +289,7 @@ func c05Loop(c *Ctx, md *ssa.Function) {
 		}
 		// one iteration
 		nIter++
-		var sends []*ssa.Send
-		p.Instrs(func(in ssa.Instruction) {
-			if s, ok := in.(*ssa.Send); ok {
-				sends = append(sends, s)
-			}
-		})
+		sends := sendsOn(p)
 		okSend := len(sends) == 1 && isAllNodesCall(p.Of(sends[0].X))
 		// wait: select arm on time.After(multicastDelay(prng, i, min, max))
 		okWait, okArgs, okCancel := false, false, false
